@@ -41,6 +41,8 @@ def image_fields(name, ident, sums, k, s=0):
     f = {"path": "%s/%s.iso" % ("imgs", name), "mtime": 1420000000, "size": (1 << 33) + 1, "volume_id": None,
          "disc_count": 2, "checksums": dict(SUMS[s % len(SUMS)][sums]), "implant_md5": None, "bootable": False}
     f.update(ident_fields(ident, k))
+    if (k * 3 + s) % 5 == 4 and f["subvariant"] == "Server":
+        f["subvariant"] = ""            # an empty subvariant is a value like any other (what 1.0 files upgrade to)
     return f
 
 
@@ -118,7 +120,8 @@ def replay_history(case):
                 objs = [imgs[ev["img"]]] + [i for v in m.images for a in m.images[v] for i in m.images[v][a]
                                             if i.path.split("/")[-1][:-4] == ev["img"] and i is not imgs[ev["img"]]]
                 for o in objs:
-                    for at, val in ident_fields(ev["ident"], k).items():
+                    new_ident = image_fields(ev["img"], ev["ident"], POOL[ev["img"]][1], k, s)
+                    for at, val in ((a_, new_ident[a_]) for a_ in IDENT_ATTRS):
                         setattr(o, at, list(val) if isinstance(val, list) else val)
                     ser = []
                     o.serialize(ser)
@@ -243,7 +246,7 @@ def eval_identity(case):
     fails = []
     if tuple(a) != tuple(b):
         fails.append("identify_image(object)=%s differs from identify_image(dict)=%s" % (tuple(a), tuple(b)))
-    exp = ident_fields(POOL[n][0], k)
+    exp = {x: f[x] for x in IDENT_ATTRS}
     if "av" in case:
         exp["unified"] = case["unified"]
         exp["additional_variants"] = list(case["av"])
